@@ -40,7 +40,7 @@ func mandatory() []step {
 	add("client-stat", "1", "7", "all")
 	add("raw-stat-get", "1", "37")
 	add("raw-stat-post", "1", "37", "999", "1000", "1001")
-	add("raw-stat-wait", "0", "1", "1-absent")
+	add("raw-stat-wait", "0", "1", "1-absent", "wake")
 	add("client-fetch", "present", "absent")
 	add("raw-get", "present", "absent")
 	add("raw-head", "present", "absent")
@@ -51,6 +51,8 @@ func mandatory() []step {
 	add("client-enum-simple", "-")
 	add("raw-page", "absent", "1", "2", "100", "over-max", "mws0", "mws1", "mws1-after")
 	add("raw-chain", "1", "2", "100", "over-max", "absent", "mws0", "mws1")
+	add("raw-page-weird", weirdPageClasses...)
+	add("raw-stat-weird", weirdStatClasses...)
 	return s
 }
 
@@ -62,6 +64,7 @@ var weights = []struct {
 	{"client-stat", 5}, {"raw-stat-get", 5}, {"raw-stat-post", 8}, {"raw-stat-wait", 1},
 	{"client-fetch", 6}, {"raw-get", 8}, {"raw-head", 5}, {"raw-range", 12}, {"raw-head-range", 2},
 	{"client-enum", 6}, {"client-enum-maxwait", 1}, {"client-enum-simple", 1}, {"raw-page", 14}, {"raw-chain", 5},
+	{"raw-page-weird", 4}, {"raw-stat-weird", 3},
 }
 
 func (h *hist) plan(nreq int) []step {
@@ -150,6 +153,10 @@ func (h *hist) step(s step) {
 		h.rawPage(s.class)
 	case "raw-chain":
 		h.rawChain(s.class)
+	case "raw-page-weird":
+		h.rawPageWeird(s.class)
+	case "raw-stat-weird":
+		h.rawStatWeird(s.class)
 	default:
 		panic("unknown step " + s.kind)
 	}
@@ -544,6 +551,8 @@ func (h *hist) rawStatWait(class string) {
 		h.rawStatPresent("0")
 	case "1":
 		h.rawStatPresent("1")
+	case "wake":
+		h.rawStatWake()
 	default:
 		// one absent ref: the server may wait up to a second, then must report the present ones
 		h.rawStat("POST", "wait1-absent", 3, "1")
@@ -1004,7 +1013,7 @@ const serverMaxEnumerate = 10000 // only used to pick a limit above it
 func (h *hist) pageReq(class string, allowAfter bool) (q enumReq, limit int) {
 	switch class {
 	case "absent":
-	case "1", "2", "100":
+	case "1", "2", "100", "1000":
 		q.Limit = class
 		limit, _ = strconv.Atoi(class)
 	case "over-max":
@@ -1014,6 +1023,10 @@ func (h *hist) pageReq(class string, allowAfter bool) (q enumReq, limit int) {
 		q.MaxWait = "0"
 		limit = []int{1, 2, 100}[h.rng.Intn(3)]
 		q.Limit = strconv.Itoa(limit)
+	case "mws1-1000": // (bulk histories) what pkg/client sends first for EnumerateOpts{MaxWait: 1s}
+		q.MaxWait = "1"
+		limit = 1000
+		q.Limit = "1000"
 	case "mws1", "mws1-after":
 		q.MaxWait = "1"
 		if h.rng.Intn(2) == 0 {
@@ -1047,7 +1060,15 @@ func mwsClass(q enumReq) string {
 
 // onePage performs one enumerate request and checks the page against the model.
 // It returns the parsed page (nil if unusable).
-func (h *hist) onePage(q enumReq, limit int) *enumResp {
+func (h *hist) onePage(q enumReq, limit int) *enumResp { return h.onePageOpt(q, limit, pageOpt{}) }
+
+// pageOpt relaxes onePage for requests whose parameters are outside the documented domain.
+type pageOpt struct {
+	allow4xx  bool // the parameter value is invalid: a 4xx refusal is as good as a correct page
+	zeroLimit bool // limit=0: only "whatever is listed is right and nothing is skipped" is decided
+}
+
+func (h *hist) onePageOpt(q enumReq, limit int, opt pageOpt) *enumResp {
 	after := ""
 	if q.After != nil {
 		after = *q.After
@@ -1066,6 +1087,10 @@ func (h *hist) onePage(q enumReq, limit int) *enumResp {
 		}
 		return nil
 	}
+	if opt.allow4xx && r.Status >= 400 && r.Status <= 499 {
+		h.note("invalid_param_answers", "4xx")
+		return nil
+	}
 	if r.Status != 200 {
 		h.bad("enumerate/status", "%s: status %d %s", q, r.Status, clip(string(r.Body), 200))
 		return nil
@@ -1076,6 +1101,27 @@ func (h *hist) onePage(q enumReq, limit int) *enumResp {
 		return nil
 	}
 	want := h.want(after)
+	if opt.allow4xx {
+		h.note("invalid_param_answers", "page")
+	}
+	if opt.zeroLimit {
+		h.eval(len(e.Blobs))
+		if c, what := h.classify(after, e.Blobs, want, 0, false); c != "" {
+			h.bad("enumerate/"+c, "%s with %d blobs after the cursor, page of %d, continueAfter=%q: %s", q, len(want), len(e.Blobs), e.ContinueAfter, what)
+			return e
+		}
+		nk := 0
+		for _, sb := range e.Blobs {
+			if h.known(sb.BlobRef) {
+				nk++
+			}
+		}
+		if e.ContinueAfter != "" && nk < len(want) && e.ContinueAfter >= want[nk] {
+			h.bad("enumerate/continue-skips", "%s: continueAfter=%q is not before the next uploaded blob %s: the next page skips it", q, e.ContinueAfter, want[nk])
+		}
+		h.note("limit_zero_answers", fmt.Sprintf("entries=%v,continueAfter=%v", len(e.Blobs) > 0, e.ContinueAfter != ""))
+		return e
+	}
 	if q.MaxWait != "" && q.MaxWait != "0" && len(e.Blobs) == 0 && e.ContinueAfter == "" && len(want) > 0 {
 		h.bad("enumerate/maxwaitsec-positive-empty", "%s on a store holding %d blobs: \"blobs\" is empty (must return the available blobs immediately); body=%s",
 			q, len(want), clip(strings.Join(strings.Fields(string(r.Body)), " "), 120))
@@ -1113,6 +1159,12 @@ func (h *hist) onePage(q enumReq, limit int) *enumResp {
 		}
 		if limit > 0 && len(e.Blobs) < limit && more {
 			h.note("events", "server-capped-page")
+		}
+		if q.Limit == "" && more {
+			h.note("events", "default-limit-page-truncated") // the server's own page size was reached
+		}
+		if limit == 1000 && len(e.Blobs) == 1000 {
+			h.note("events", "limit-1000-page-full") // the page size pkg/client asks for
 		}
 	}
 	return e
@@ -1156,6 +1208,9 @@ func (h *hist) rawChain(class string) {
 			visited[sb.BlobRef]++
 		}
 		if e.ContinueAfter == "" {
+			if pages > 1 && len(e.Blobs) == 0 {
+				h.note("events", "full-page-then-empty-page") // blob-enumerate.md: "possible but rare"
+			}
 			break
 		}
 		if pages > maxPages {
@@ -1222,4 +1277,5 @@ func (h *hist) audit() {
 	h.clientEnumSimple()
 	h.auditBoundary()
 	h.checkServerLog()
+	h.auditRoots([]string{"100", "absent"})
 }
